@@ -3,6 +3,8 @@ package main
 import (
 	"fmt"
 	"math/rand"
+	"os"
+	"strconv"
 	"sync/atomic"
 	"time"
 
@@ -63,14 +65,19 @@ type udpCaseCfg struct {
 func c02Case(c *Ctx) *Result {
 	r := rngFor(c.Seed, "C02", c.Idx)
 	fam := pick(r, "pos1", "pos1", "pos2", "pos2", "rand", "rand", "rand")
-	if c.Idx%40 == 39 {
+	longPause := false
+	if c.Idx%40 == 39 || c.Idx%40 == 19 {
 		fam = "window"
+		longPause = c.Idx%40 == 19
 	}
 	if c.Idx%10 == 7 {
 		fam = "slow" // long quiet periods and slow one-way transfers on a healthy network
 	}
 	if c.Idx%10 == 3 {
 		fam = "eager" // the server application writes a lot the moment Accept returns
+	}
+	if c.Idx%40 == 11 {
+		fam = "shared" // one application stops reading for minutes; the other sessions of the association go on
 	}
 	nsess := pick(r, 1, 1, 1, 2, 3, 4)
 	mtuC, mtuS := pick(r, mtuSet...), pick(r, mtuSet...)
@@ -81,6 +88,9 @@ func c02Case(c *Ctx) *Result {
 	if fam == "window" {
 		nsess = 1
 		budget = 8 << 20
+	}
+	if fam == "shared" {
+		nsess = 2 + r.Intn(2)
 	}
 	plans := make([]*SessPlan, nsess)
 	var keys []uint64
@@ -111,7 +121,36 @@ func c02Case(c *Ctx) *Result {
 		}
 		if fam == "window" {
 			p.ReadPause[0] = &Pause{AfterBytes: 1 << 20, Dur: time.Duration(1+r.Intn(9)) * time.Second}
+			if longPause {
+				// the application stops reading for minutes (a paused download); both ends keep the connection open
+				p.ReadPause[0].Dur = time.Duration(pick(r, 70, 100, 150, 400)) * time.Second
+			}
+			if v, err := strconv.Atoi(os.Getenv("VERIF_PAUSE_S")); err == nil && v > 0 {
+				p.ReadPause[0].Dur = time.Duration(v) * time.Second // debugging aid
+			}
 			p.R[0] = []int{65536}
+		}
+		if fam == "shared" {
+			big := r.Intn(2) // direction of the stalled bulk transfer
+			if i == 0 {
+				// 8 MB towards an application that reads 64 KiB and then stops for 150 s
+				p.W[big] = []int{2 << 20, 2 << 20, 2 << 20, 2 << 20}
+				p.W[1-big] = []int{100}
+				p.R[big] = []int{65536}
+				p.ReadPause[big] = &Pause{AfterBytes: 65536, Dur: 150 * time.Second}
+				p.GapMs = [2][]int{}
+			} else {
+				// small exchanges spread over the first 20-30 s
+				for d := 0; d < 2; d++ {
+					p.W[d] = nil
+					p.GapMs[d] = nil
+					for k := 0; k < 20; k++ {
+						p.W[d] = append(p.W[d], 1+r.Intn(2000))
+						p.GapMs[d] = append(p.GapMs[d], 500+r.Intn(1000))
+					}
+					p.R[d] = []int{4096}
+				}
+			}
 		}
 		if fam == "eager" {
 			p.W[1] = []int{30000 + r.Intn(60000), 1 + r.Intn(3000)}
@@ -224,7 +263,7 @@ func c02Case(c *Ctx) *Result {
 	res.Obs["sessions"] = float64(nsess)
 	faultsHit := res.Obs["datagrams_dropped"] + res.Obs["datagrams_duplicated"] + res.Obs["datagrams_delayed"]
 	res.Shape = shapeHash(fam, nsess, mtuC, mtuS, patClass(env.PatCE), patClass(env.PatSE), fp.hitClass(), faultsHit > 0)
-	res.Trivial = total == 0 || (fam != "window" && fam != "slow" && fam != "eager" && faultsHit == 0)
+	res.Trivial = total == 0 || (fam != "window" && fam != "slow" && fam != "eager" && fam != "shared" && faultsHit == 0)
 	if timedOut && !isVirtual {
 		res.Verdict, res.Detail = Inconclusive, "real-time watchdog fired"
 		return res
@@ -233,7 +272,16 @@ func c02Case(c *Ctx) *Result {
 	if sig == "" && timedOut {
 		sig, detail = "stalled", "transfer under a fair fault plan did not finish within 3600 virtual seconds"
 	}
-	if sig == "" && isVirtual && stall > 120*time.Second && fam != "slow" {
+	if sig == "" && isVirtual && fam == "shared" {
+		// the stalled application resumes after 150 s; the others had 20 exchanges over about half a minute to do
+		for i, r0 := range rs {
+			if i > 0 && r0.DoneAfter > 100*time.Second {
+				sig, detail = "other-session-frozen-by-a-stalled-reader", fmt.Sprintf("session %d (small exchanges, about 30 s of work) finished only %.0f s after the start: it was held up while the application of session 0 was not reading", i, r0.DoneAfter.Seconds())
+				break
+			}
+		}
+	}
+	if sig == "" && isVirtual && stall > 120*time.Second && fam != "slow" && fam != "shared" {
 		sig, detail = "no-progress-120s", fmt.Sprintf("no application progress for %v while the network kept delivering", stall)
 	}
 	if sig != "" {
